@@ -29,6 +29,7 @@ func init() {
 			{"C06.chunk-buffer-ownership", "the chunker never reuses a buffer whose sub-slices were handed out", 1, c06BufferOwnership},
 			{"C06.store-writes", "the local store publishes a chunk only after its converted data was written completely (shared with C08/C20)", 4, func(c *Ctx) { c08Typestate(c); c20WriteFormat(c) }},
 			{"C06.backend-writes", "every back end's StoreChunk reports success only after its write primitives completed", 8, func(c *Ctx) { c.writePrimitives("C06") }},
+			{"C06.retried-reader-fresh", "a reader consumed inside a retry cycle is created inside it (shared with C04/C14)", 1, func(c *Ctx) { c.retriedReaderFresh() }},
 			{"C06.errors-not-dropped", "no error of the operations this property depends on is dropped", 1, func(c *Ctx) { c.errorsNotDropped("C06") }},
 		},
 	})
